@@ -570,10 +570,11 @@ static void serve(struct side *x)
     pump(g_tsock);
 }
 
-static int all_sessions_done(void *arg)
+static int owner_has_closed(void *arg)
 {
     (void)arg;
-    return g_clients_done >= g_ncl;
+    struct side *o = !strcmp(g_target, "a") ? &A : &B;
+    return g_tclosed || o->failed;
 }
 
 static void close_side(struct side *x)
@@ -582,7 +583,7 @@ static void close_side(struct side *x)
         return;
     /* the other endpoint keeps its connection open while the owner of the target still serves sessions */
     if (!owns_target(x) && strcmp(g_svc, "none"))
-        mc_wait_cond(all_sessions_done, NULL, "linger");
+        mc_wait_cond(owner_has_closed, NULL, "linger");
     mc_sched_point("close");
     if (g_tsock == x->s)
         g_tclosed = 1;
